@@ -82,14 +82,14 @@ PROPS.update({
 
 
 HIST_RULE = "files from the writer-configuration generator biased to tiny unclamped blocks and 1..4 index levels (several blocks at non-root index levels), 0..300 entries; probe keys cover every class: each stored key, key+00, key+FF, key minus last byte, predecessor by last byte, empty, below first, above last, random; non-trivial = file with >= 2 entries and >= 2 operations, distinct by file+history hash"
-READER_TRUST = ["the reader refinement R (cursor = abstract cursor on every well-formed file) is proved on the abstract level-sequence model of design-notes/Chain_probe.v + CeilIndex_probe.v, not yet on the executable byte-level model; the executable model is tied to the implementation by results, block-load counts and cached-block fingerprints after every operation"]
+READER_TRUST = ["the reader refinement R is proved on the executable model for every well-formed STORE (proofs/ReaderRefine.v: wf_store = every block offset maps to a well-formed parsed block, index items carry last keys and 8-byte offsets, level sequences ascending, offsets of different levels distinct); that the files the writer produces yield such a store (backbone W) is not yet proved — the independent decoder and the per-block predicates check it on every generated file; the executable model is tied to the implementation by results, block-load counts and cached-block fingerprints after every operation"]
 PROPS.update({
     "C02": {"prop_file": "props/C02.v", "scenarios": [{"name": "hist-c02"}], "rule": HIST_RULE + "; every seek on a fresh or reset cursor",
             "trusted": READER_TRUST, "assumptions": [],
-            "not_proved": ["C02_seeks (cstep from Fresh on a well-formed file returns ceil/floor/match): needs R on the byte-level model; validated against Spec.ceil_idx/floor_idx/find_idx on every probe"]},
+            "not_proved": ["C02_seeks is proved for every wf_store (any depth, from any cursor state); missing: W (writer output is a wf_store)"]},
     "C03": {"prop_file": "props/C03.v", "scenarios": [{"name": "hist-c03"}], "rule": HIST_RULE + "; random histories over up to 4 cursors (clones), runs of relative moves followed by absolute moves (the stale-cache shape), with the D2 replay first",
             "trusted": READER_TRUST, "assumptions": ["functional_extensionality_dep (stdlib axiom) in C03_depends_on_loader_only"],
-            "not_proved": ["C03_history (every specified result of every history equals Spec.aspec): needs R on the byte-level model; validated on every operation of every generated history incl. internal cursor state"]},
+            "not_proved": ["C03_step / C03_history are proved for every wf_store and every admissible history of one cursor (clones are value copies: each follows its own history); missing: W (writer output is a wf_store); relative moves issued after a None are unspecified by the property and are only shown to keep the cache coherent when they return"]},
     "C04": {"prop_file": "props/C04.v", "scenarios": [{"name": "iter-c04"}], "rule": HIST_RULE + "; 24 ranges per file over all 9 bound-kind pairs with equal and inverted bounds forced, both directions",
             "trusted": READER_TRUST, "assumptions": [],
             "not_proved": ["C04_range (collect (range_iter) = filter in_range; reverse = rev): needs R; validated against Spec.range_spec on every query"]},
@@ -98,7 +98,7 @@ PROPS.update({
             "not_proved": ["C05_prefix (collect (prefix_iter) = filter has_prefix; reverse = rev): advance_key and the prefix-interval fact are proved (C05_advance_key_spec); the composition with the cursor needs R; validated against Spec.prefix_spec on every query"]},
     "C16": {"prop_file": "props/C16.v", "scenarios": [{"name": "hist-c16"}], "rule": HIST_RULE + "; block loads (absolute seeks) counted per operation by an instrumented source",
             "trusted": READER_TRUST, "assumptions": [],
-            "not_proved": ["C16_loads (every operation from every reachable state loads <= 2*(levels+2) blocks): needs R; checked on every operation: implementation loads <= model loads and <= the bound"]},
+            "not_proved": ["C16_loads is proved for every wf_store; missing: W (writer output is a wf_store)"]},
     "C06": {"prop_file": "props/C06.v", "scenarios": [{"name": "merge-c06"}],
             "rule": "0..8 sources over a shared key pool with forced overlap patterns (disjoint, identical, chains, random), empty sources, each source written with its own file configuration; values tagged with their source; order-revealing merge function (concatenation) logging every call, and merge functions failing at a chosen call; non-trivial = >= 2 sources and >= 2 entries, distinct by the source files",
             "trusted": ["sources are modelled by the entry lists their files hold (C01)", "BinaryHeap::pop returns the maximum of a strict total order (std)"], "assumptions": [],
@@ -182,8 +182,8 @@ def _mt(text, ref, note, tech):
     return {"text": text, "design_ref": ref, "note": note, "technique": tech}
 _PARTIAL = " Partial proof: see not_proved in the evidence file. Trusted: Coq kernel; the hand transcription (validated by the correspondence of every run); extraction, OCaml driver, Rust harness."
 MANIFEST_TEXT.update({
-    "C02": _mt("Proved: the specification functions compute the ceiling/floor/match the property describes (C02_ceil_spec, C02_ceil_none, C02_floor_spec). Every run: every probe class on fresh/reset cursors through implementation, executable model and specification, incl. multi-level files with several blocks per index level and V1/0.4.7-independent layouts.", "DESIGN.md §5 C02", "Axioms: none." + _PARTIAL, "Rocq proof (specification lemmas) + implementation/model/specification differential execution over all probe classes"),
-    "C03": _mt("Proved: reset forgets the whole cache, results are a function of (loader,state,op) so clones continue identically, the file is consulted only through the loader, absolute moves of the abstract cursor ignore history. Every run: random multi-cursor histories with results, per-operation block loads and the fingerprint of every cached block compared between implementation and model after every step, results compared with the abstract cursor wherever it specifies them; the D2 replay runs first.", "DESIGN.md §5 C03", "Axiom: functional_extensionality_dep (stdlib)." + _PARTIAL, "Rocq proof (structural lemmas) + state-level implementation/model correspondence on operation histories + abstract-cursor oracle"),
+    "C02": _mt("Proved on the executable model: in-block seeks return the exact floor/ceiling on every well-formed block (C02_block_floor, C02_block_ceiling), every block finished by the block writer is well-formed (C02_finished_blocks_wellformed), and the whole multi-level cursor returns the exact ceiling/floor/match of the content from ANY state of ANY well-formed store of any depth (C02_seeks: the ceiling is found through the index because items carry last keys). Every run: every probe class on fresh/reset cursors through implementation, executable model and specification, incl. multi-level files with several blocks per index level and V1/0.4.7-independent layouts.", "DESIGN.md §5 C02", "Axioms: none." + _PARTIAL, "Rocq proof (specification lemmas) + implementation/model/specification differential execution over all probe classes"),
+    "C03": _mt("Proved on the executable model for any index depth (C03_step, C03_history): on every well-formed store the cursor refines the abstract cursor Fresh|At i|Unspec — after ANY history first/last/seeks return the specified entry, next/prev step to the neighbour, current is the last returned entry, and the per-level block cache stays coherent (the invariant the D2 defect broke); plus in-block moves as index moves and the structural lemmas. Every run: random multi-cursor histories with results, per-operation block loads and the fingerprint of every cached block compared between implementation and model after every step, results compared with the abstract cursor wherever it specifies them; the D2 replay runs first.", "DESIGN.md §5 C03", "Axiom: functional_extensionality_dep (stdlib)." + _PARTIAL, "Rocq proof (structural lemmas) + state-level implementation/model correspondence on operation histories + abstract-cursor oracle"),
     "C04": _mt("Proved: the specification is the filter by both bounds; shape of the iterator step. Every run: ranges over all bound-kind pairs (equal, inverted, absent, present bounds), forward and reverse, through implementation, model and specification.", "DESIGN.md §5 C04", "Axioms: none." + _PARTIAL, "Rocq proof (specification lemmas) + implementation/model/specification differential execution"),
     "C05": _mt("Proved for all byte strings: advance_key returns None exactly for all-0xFF prefixes and otherwise the exclusive upper end of the interval of keys sharing the prefix (C05_advance_key_spec). Every run: prefixes of every class (empty, 0xFF runs, successor stored, longer than every key) forward and reverse through implementation, model and specification.", "DESIGN.md §5 C05", "Axioms: none." + _PARTIAL, "Rocq proof (induction on the prefix: carry loop, prefix interval) + implementation/model/specification differential execution"),
     "C06": _mt("Proved on the executable model: heap pops remove exactly one element, which sources enter the heap, empty sources yield nothing without a merge call. The full merge theorem is proved on the abstract merger (design-notes). Every run: outputs, the exact sequence of (key, values) the merge function receives, failures of the merge function, and the file produced through a writer, for implementation vs model, plus the three defining clauses evaluated on the implementation's output.", "DESIGN.md §5 C06", "Axioms: none." + _PARTIAL, "Rocq proof (heap lemmas; abstract merge theorem) + implementation/model differential execution with call logging"),
@@ -192,5 +192,5 @@ MANIFEST_TEXT.update({
     "C17": _mt("Proved (partial by nature): the buffer invariant (16-byte granularity, bounds and data regions disjoint, n <= L/16) is preserved by every insert of any size, fits/remaining never underflow, the doubling loop terminates for every usize size, allocation sizes are the rounded sizes. Every run: overflow-checked build, buffer triple compared after every insert, tracking allocator checks dealloc layouts, chunk leak counter.", "DESIGN.md §5 C17", "Axioms: none. Not expressible: aliasing/lifetime soundness of unsafe code, allocator behaviour." + _PARTIAL, "Rocq proof (arithmetic invariant) + overflow-checked differential execution + layout-tracking allocator"),
     "C11": _mt("Proved for every benign schedule: write_all delivers exactly the buffer and counts exactly its length (C11_write_all); a whole writer run over a scheduled sink ends at the same call with the same bytes, count, emitted blocks and trailer as over a plain Vec (C11_write, by parametricity of the writer model in its sink); read_exact and read_to_end-over-Take return exactly the unscheduled bytes for any buffer sizes std offers (C11_read_exact, C11_read_to_end), hence every block load is schedule-independent (C11_block_load). Every run: writer under explicit schedules vs model (bytes and write-call sizes) and vs plain run; histories on all codecs, mergers, sorters under 4 schedules vs unscheduled.", "DESIGN.md §5 C11", "Axioms: none." + _PARTIAL, "Rocq proof (induction on fuel over schedules; relational parametricity of the writer in its sink) + scheduled-vs-plain differential execution"),
     "C12": _mt("Proved for the writer and every fault position: no fault armed => exactly the plain run (C12_quiet); fault armed => the injected error or the plain outcome with a file not reaching the fault position (C12_writer_fault); fault position inside the file or flush fault => Err carrying the injected error, never success, never panic (C12_writer_surface). Every run: exhaustive single-fault enumeration over writer bytes/flush, reader seeks/reads, sorter creates/merge calls/chunk I/O and merger source I/O: implementation vs model (failing call index and error class) and vs the specification (the call in progress when the fault fired returns that error).", "DESIGN.md §5 C12", "Axioms: none." + _PARTIAL, "Rocq proof (relational parametricity with early failure) + exhaustive fault enumeration against model and specification"),
-    "C16": _mt("Proved: open consults only the last 22 bytes whatever the file size (C16_open_reads_only_the_trailer); reset/current load nothing. Every run: block loads per operation counted by an instrumented source: implementation <= model <= 2*(levels+2).", "DESIGN.md §5 C16", "Axioms: none." + _PARTIAL, "Rocq proof (trailer locality) + per-operation I/O counting against the model and the bound"),
+    "C16": _mt("Proved: open consults only the last 22 bytes whatever the file size (C16_open_reads_only_the_trailer); every specified operation from every state of every well-formed store loads at most 2*(index_levels+2) blocks (C16_loads, from the refinement proof: each walk loads <= levels+2 blocks, LE is two walks). Every run: block loads per operation counted by an instrumented source: implementation <= model <= 2*(levels+2).", "DESIGN.md §5 C16", "Axioms: none." + _PARTIAL, "Rocq proof (trailer locality) + per-operation I/O counting against the model and the bound"),
 })
